@@ -25,14 +25,28 @@ def read_lammpslog(filename) -> [pd.DataFrame]:
 
     # ----get how many sections are there----
     start = [i for i, val in enumerate(data) if val.startswith("Step ")]
-    end = [i for i, val in enumerate(data) if val.startswith("Loop time of ")]
+    loops = [i for i, val in enumerate(data) if val.startswith("Loop time of ")]
 
-    if len(start) > len(end):  # incomplete log file: the last run has no "Loop time" line
-        # keep the rows before the final line, which may have been cut off
-        end.append(max(len(data) - 1, start[-1] + 1))
+    # each section ends at the first "Loop time" line that precedes the next "Step" line
+    end = []
+    for n, i in enumerate(start):
+        upper = start[n + 1] if n + 1 < len(start) else len(data)
+        closing = [j for j in loops if i < j < upper]
+        if closing:
+            end.append(closing[0])
+            continue
+        # incomplete run (killed, or still running): it has no "Loop time" line.
+        # keep the leading lines that hold one value per column
+        ncol = len(data[i].split())
+        stop = i + 1
+        while stop < upper and len(data[stop].split()) == ncol:
+            stop += 1
+        if stop == len(data):  # the final line of the file may have been cut off
+            stop = max(len(data) - 1, i + 1)
+        end.append(stop)
 
-    start = np.array(start)
-    end = np.array(end)
+    start = np.array(start, dtype=int)
+    end = np.array(end, dtype=int)
     linenum = end - start - 1
     logger.info(f"Section Number: {len(linenum)} \t Line Numbers: {str(linenum)}")
     del data
